@@ -816,8 +816,25 @@ class Frame:
         if isinstance(fn, ast.Name) and fn.id == 'isinstance':
             return [(V('bool'), '')]
         if t.kind == 'func' and isinstance(t.obj, Function):
-            # base-package function: numeric kernel; do not interpret, but None arguments where arrays are
-            # needed are not tracked. Result: some value.
+            # base-package function: numeric kernel; not interpreted, except for its TYPE GUARDS: a body-level
+            # `if not isinstance(p, T): raise` / `assert isinstance(p, T)` on a parameter rejects an argument whose abstract kind
+            # is definitely not T (a library object or a list where an int is required), whatever its value
+            for (pname, types, idx) in type_guards(t.obj):
+                a = args[idx] if idx < len(args) else kwargs.get(pname)
+                if a is None:
+                    continue
+                kk = {'int': 'int', 'bool': 'int', 'float': 'float', 'list': 'list', 'data': 'list', 'tuple': 'tuple', 'ndarray': 'ndarray',
+                      'adata': 'ndarray', 'str': 'str', 'obj': 'obj', 'none': 'none'}.get(a.kind)
+                if kk is None:
+                    continue
+                if kk == 'obj' and any(I.cls(T) is not None and I.issub(a.cls, T) for T in types):
+                    continue
+                if kk != 'obj' and kk in types:
+                    continue
+                if kk == 'obj' and any(I.cls(T) is not None for T in types) and not all(I.cls(T) is None for T in types) and \
+                        any(I.issub(a.cls, T) is None for T in types):
+                    continue
+                raise Raise('%s rejects a %s for %r (type guard)' % (t.obj.name, a.cls if kk == 'obj' else kk, pname))
             self._r = True
             return [(VALUE, 'kernel %s' % t.obj.name)]
         if t.kind == 'unresolved':
@@ -869,6 +886,37 @@ class Frame:
         if first is not None and first.kind in ('int', 'float') and cname in ('SO3', 'SE3', 'Twist3', 'Twist2', 'Plucker'):
             pass
         return [(V('obj', cname), note)]
+
+
+_tg_cache = {}
+
+
+def type_guards(g):
+    """[(param, {type names}, positional index)] for body-level isinstance guards of g whose failing edge raises; only guards
+    that precede any rebinding of the parameter are summarised"""
+    if g.key in _tg_cache:
+        return _tg_cache[g.key]
+    out = []
+    rebound = set()
+    body = [st for st in g.node.body if not (isinstance(st, ast.Expr) and isinstance(st.value, ast.Constant))]
+    for st in body:
+        test = None
+        if isinstance(st, ast.If) and not st.orelse and st.body and isinstance(st.body[-1], ast.Raise) and \
+                isinstance(st.test, ast.UnaryOp) and isinstance(st.test.op, ast.Not):
+            test = st.test.operand
+        elif isinstance(st, ast.Assert):
+            test = st.test
+        if test is not None and isinstance(test, ast.Call) and isinstance(test.func, ast.Name) and test.func.id == 'isinstance' and \
+                len(test.args) == 2 and isinstance(test.args[0], ast.Name) and test.args[0].id in g.params and test.args[0].id not in rebound:
+            tn = test.args[1]
+            names = [x.id for x in (tn.elts if isinstance(tn, ast.Tuple) else [tn]) if isinstance(x, ast.Name)]
+            if names and len(names) == (len(tn.elts) if isinstance(tn, ast.Tuple) else 1):
+                out.append((test.args[0].id, set(names), g.params.index(test.args[0].id)))
+        for y in ast.walk(st):
+            if isinstance(y, ast.Name) and isinstance(y.ctx, ast.Store):
+                rebound.add(y.id)
+    _tg_cache[g.key] = out
+    return out
 
 
 def exc_name(e):
